@@ -22,7 +22,7 @@ func H_C13_history() {
 		case 0:
 			d = datumC12()
 		case 1:
-			d = map[string]interface{}{"s": vInt8(), "l": vString(1), "m": []int{1}} // ill-typed for most expressions: errors
+			d = map[string]interface{}{"s": vInt8(), "l": vString(1), "m": []int{1}, "f": vInt8(), "n": 1.5} // ill-typed for most expressions: errors
 		default:
 			d = map[string]interface{}{"s": "a", "n": int8(1), "f": 1.5, "l": []interface{}{int8(1)}, "m": map[string]interface{}{"a": int8(2)}, "ts": []string{"q"}}
 		}
